@@ -873,12 +873,12 @@ func (m *capModel) step(now int64, v int) (seen bool, cause uint8) {
 }
 
 type capStats struct {
-	ops, checkpoints                                       int64
-	evictedNew, heldSeenNearFront, readingDependent        int64
-	likeEager, likeLazy                                    int64
-	sizeEager, sizeLazy, sizeNeither                       int64
-	expiredNew, discardedNew, neverNew, heldSeen, maxSize  int64
-	fullDiscards                                           int64
+	ops, checkpoints                                      int64
+	evictedNew, heldSeenNearFront, readingDependent       int64
+	likeEager, likeLazy                                   int64
+	sizeEager, sizeLazy, sizeNeither                      int64
+	expiredNew, discardedNew, neverNew, heldSeen, maxSize int64
+	fullDiscards                                          int64
 }
 
 type capRun struct {
